@@ -6,8 +6,11 @@
 (* no-ops (repeated prepare / compute), which are rejected by a status      *)
 (* guard, and what a getter may be asked when.                              *)
 (*                                                                         *)
-(* Objects (one instance each, all constructed up front -- constructors    *)
-(* only store references):                                                 *)
+(* Objects (one instance each, ALL constructed up front, before anything   *)
+(* is prepared -- constructors only store references):                      *)
+(*   IC  IndexClassification         compute (= prepare()), get             *)
+(*   HS  IndexHamiltonian            compute (= prepare()), get             *)
+(*   SYM Symmetrizer                 compute (default analysis), get        *)
 (*   S   StatesClassification        compute, get (getBlockNumber)          *)
 (*   H   Hamiltonian                 prepare, compute, get (getEigenValue)  *)
 (*   DM  DensityMatrix               prepare, compute, get (getWeight)      *)
@@ -33,7 +36,7 @@
 (***************************************************************************)
 EXTENDS Naturals, Sequences, FiniteSets, TLC
 
-Objs == {"S", "H", "DM", "CX", "C", "QA", "OPS", "GF", "X", "SU", "EA", "V"}
+Objs == {"IC", "HS", "SYM", "S", "H", "DM", "CX", "C", "QA", "OPS", "GF", "X", "SU", "EA", "V"}
 OpNames == {"prepare", "compute", "get", "copy"}
 Copyable == {"GF", "SU", "EA"}                 \* classes with a user-visible copy constructor (deep copy of the parts)
 Con == 0
@@ -42,15 +45,20 @@ Com == 2
 
 FieldOps == {"CX", "C", "QA", "OPS"}
 Deps == [o \in Objs |->
-           CASE o = "S" -> {}
-             [] o = "H" -> {"S"}
+           CASE o = "IC" -> {}
+             [] o = "HS" -> {"IC"}
+             [] o = "SYM" -> {"IC", "HS"}
+             [] o = "S" -> {"IC", "SYM"}
+             [] o = "H" -> {"IC", "HS", "S"}
              [] o = "DM" -> {"S", "H"}
              [] o \in FieldOps -> {"S", "H"}
              [] o \in {"GF", "X"} -> {"S", "H", "DM", "CX", "C"}
              [] o \in {"SU", "EA"} -> {"S", "H", "DM", "QA"}
              [] o = "V" -> {"GF", "X"}]
 
-HasPrepare == Objs \ {"S", "V"}
+OneStep == {"IC", "HS", "SYM", "S", "V"}        \* a single call finishes the object (for IC and HS that call is named prepare() in the code)
+OnceOnly == {"IC", "HS"}                        \* no status guard: a second call appends everything again -- not a documented call
+HasPrepare == Objs \ OneStep
 HasCompute == Objs \ {"EA"}                      \* EnsembleAverage::prepare computes the result
 Final == [o \in Objs |-> IF o = "EA" THEN Pre ELSE Com]
 AutoPrepare == {"GF", "SU"}                      \* compute() calls prepare() itself
@@ -83,7 +91,7 @@ Eff(s, o, op) ==
          (IF s[o] = Com THEN NoOp(s, IF o = "X" THEN "empty" ELSE "none")   \* X: a second compute() returns an EMPTY table
           ELSE IF s[o] = Pre THEN Adv(s, o, Com, IF o = "X" THEN "table" ELSE "none")
           ELSE IF o \in AutoPrepare /\ Ready(s, o) THEN Adv(s, o, Com, "none")
-          ELSE IF o \in {"S", "V"} /\ Ready(s, o) THEN Adv(s, o, Com, "none")
+          ELSE IF o \in OneStep /\ Ready(s, o) THEN Adv(s, o, Com, "none")
           ELSE Throw(s))
     [] op = "get" ->
          (IF s[o] = Final[o] THEN NoOp(s, "value") ELSE Throw(s))
@@ -94,8 +102,9 @@ Eff(s, o, op) ==
 Documented(s, o, op) ==
   CASE op = "prepare" -> o \in HasPrepare /\ (s[o] >= Pre \/ Ready(s, o))
     [] op = "compute" -> /\ o \in HasCompute
-                         /\ \/ s[o] >= Pre
-                            \/ o \in (AutoPrepare \cup {"S", "V"}) /\ Ready(s, o)
+                         /\ \/ s[o] >= Pre /\ o \notin OnceOnly
+                            \/ o \in (AutoPrepare \cup OneStep) /\ s[o] = Con /\ Ready(s, o)
+                            \/ o \in (AutoPrepare \cup OneStep) \ OnceOnly /\ Ready(s, o)
     [] op = "get" -> s[o] = Final[o]
     [] op = "copy" -> o \in Copyable
 \* calls out of order that the code rejects with exStatusMismatch and that leave everything as it was
@@ -125,7 +134,7 @@ Productive(o, op) == Documented(st, o, op) /\ Eff(st, o, op).st # st /\ Eff(st, 
 FairSpec == Spec /\ \A o \in Objs, op \in {"prepare", "compute"} : WF_vars(Productive(o, op))
 
 \* ---- properties ------------------------------------------------------------------------------------
-TypeOK == st \in [Objs -> {Con, Pre, Com}] /\ st["S"] # Pre /\ st["V"] # Pre /\ st["EA"] # Com
+TypeOK == st \in [Objs -> {Con, Pre, Com}] /\ (\A o \in OneStep : st[o] # Pre) /\ st["EA"] # Com
 \* definition level: no object holds data derived from unfinished inputs
 DepsFinished == \A o \in Objs : st[o] > Con => Ready(st, o)
 \* a documented call never throws; a guarded call always throws and changes nothing
